@@ -8,6 +8,8 @@ of the boosted vector x every coordinate system of the booster x the 4D alphabet
 
 from __future__ import annotations
 
+import math
+
 import mpmath
 from mpmath import mpf
 
@@ -366,10 +368,60 @@ def _stratum(v: Vec):
     return "generic"
 
 
+def tau_kept(res: Result, vsys, tier):
+    """Proper time of light-like and ultra-relativistic vectors *stored with tau* (tau = 0 exactly, tau = 2^-12 next to |p| ~ 1e3):
+    after every boost spelling the result's tau is the stored tau (to 1e-9 of max(tau, 1e-9 |p|)); recomputing it from the boosted
+    components would lose it to cancellation."""
+    from ..mplib import OBJ_CLASS
+
+    if vsys[2] != "tau":
+        return
+    spatial = [v for v in A.vectors3("quick") if v.has("generic") and not v.has("near_axis") and not v.has("wildphi") and not v.has("plane")][:3]
+    boosters3 = S._beta3_partners("quick")[:2]
+    boosters4 = S._booster_p4("quick")[:2]
+    for sv in spatial:
+        big = A.Vec("big", tuple(c * 1024.0 for c in sv.comps), {"generic"})
+        sp = S.stored(big, vsys[:2])
+        if sp is None:
+            continue
+        pmag = math.sqrt(sum(c * c for c in big.comps))
+        for tau in (0.0, 2.0**-12):
+            st = tuple(float(x) for x in sp) + (tau,)
+            spellings = [(f"boost{ax}(beta={b})", lambda V, ax=ax, b=b: getattr(V, "boost" + ax)(beta=b)) for ax in "XYZ" for b in (0.5, -0.25)]
+            spellings += [(f"boost{ax}(gamma={g})", lambda V, ax=ax, g=g: getattr(V, "boost" + ax)(gamma=g)) for ax in "XYZ" for g in (3.0, -2.5)]
+            for b3 in boosters3:
+                B3 = L.build_object(OBJ_CLASS[("generic", 3)], L.CART[3], tuple(float(c) for c in b3.comps))
+                spellings += [("boost_beta3", lambda V, B3=B3: V.boost_beta3(B3)), ("boost(3D)", lambda V, B3=B3: V.boost(B3))]
+            for b4 in boosters4:
+                B4 = L.build_object(OBJ_CLASS[("generic", 4)], L.CART[4], tuple(float(c) for c in b4.comps))
+                spellings += [("boost_p4", lambda V, B4=B4: V.boost_p4(B4)), ("boost(4D)", lambda V, B4=B4: V.boost(B4))]
+            for sname, fn_ in spellings:
+                for flavor in ("generic", "momentum"):
+                    res.states += 1
+                    res.transitions += 1
+                    res.evaluations += 1
+                    res.traces += 1
+                    V = L.build_object(OBJ_CLASS[(flavor, 4)], vsys, st)
+                    case = {"kind": "tau_kept", "vsys": list(vsys), "stored": list(st), "spelling": sname, "flavor": flavor, "layer": "L2"}
+                    cls = f"tau_kept|{L.sysname(vsys)}|{sname.split('(')[0]}|{'lightlike' if tau == 0 else 'ultrarelativistic'}"
+                    try:
+                        r = fn_(V)
+                        rt = float(r.tau)
+                    except Exception as e:  # noqa: BLE001
+                        res.violation(cls + "|raises", f"{sname} raised {type(e).__name__}: {e}", case)
+                        continue
+                    if not abs(rt - tau) <= 1e-9 * max(tau, 1e-9 * pmag):
+                        res.violation(cls, f"{sname} of a vector stored with tau = {tau!r} (|p| = {pmag:.6g}) has tau = {rt!r}", case)
+                    else:
+                        res.nontrivial += 1
+
+
 def run_shard(shard, tier):
     res = Result()
     vsys = tuple(shard["vsys"])
     layer = shard["layer"]
+    if layer == "L2":
+        tau_kept(res, vsys, tier)
     ws = A.partners(4, tier)
     for i, v in enumerate(_vectors(tier)):
         w = ws[i % len(ws)]
@@ -380,6 +432,9 @@ def run_shard(shard, tier):
 
 def replay(case):
     res = Result()
+    if case.get("kind") == "tau_kept":
+        tau_kept(res, tuple(case["vsys"]), "quick")
+        return res
     comps = case["v"]
     tags = set()
     x, y, z, t = comps
